@@ -102,7 +102,10 @@ OkUn(op, a) == IF op \in UnsupUn THEN ~HasRej /\ SafeArg(a.e) /\ Rarely(a)
 \* a negative base is only raised to a LITERAL integer: an exponent that is an integer only after exact
 \* cancellation (log(exp(1/4)) / log(exp(t)) at t = 1/4) is 1.0000000000000002 in floating point, and a negative
 \* number to that power is not a real number - a tie the generators avoid like Heaviside at 0
-NegRat(val) == val.st = "ok" /\ IsRational(val.v) /\ RatOf(val.v)[1] < 0
+\* "possibly negative": a negative rational, or an exp monomial c * exp(q) with c < 0 (e.g. -exp(B)); any other
+\* non-rational value cannot be signed exactly and is treated as possibly negative too
+NegRat(val) == val.st = "ok" /\ (IF IsRational(val.v) THEN RatOf(val.v)[1] < 0
+                                ELSE IF ExpMono(val.v) THEN MonoC(val.v)[1] < 0 ELSE TRUE)
 LiteralInt(e) == IF e.k = "num" THEN e.q[2] = 1
                  ELSE IF e.k = "neg" THEN e.a[1].k = "num" /\ e.a[1].q[2] = 1 ELSE FALSE
 PowSafe(op, a, b) == IF op = "pow" /\ (NegRat(a.v) \/ NegRat(a.w)) THEN LiteralInt(b.e) ELSE TRUE
